@@ -14,3 +14,25 @@ def disc(name):
         return fn
 
     return deco
+
+
+@disc("fd_gradient_nan_on_fixed_variable")
+def _fd_degenerate(plan, viol):
+    """Finite-difference gradient mode + a fixed variable (lb == ub): SciPy's differencing
+    shrinks the step to zero, the gradient component is NaN, the loop is never entered and
+    the placeholder message escapes."""
+    w = viol.get("witness", {})
+    return (
+        plan.get("problem", {}).get("box") == "degenerate"
+        and plan.get("cfg", {}).get("jac", "callable") != "callable"
+        and w.get("message") == "START"
+        and w.get("jac_has_nan") is True
+    )
+
+
+@disc("restart_with_gradient_scaler")
+def _scaler_restart(plan, viol):
+    """A checkpoint produced with a gradient scaler already holds s*f and s*g; the restart
+    scales them again (and calls the scaler on the scaled gradient)."""
+    w = viol.get("witness", {})
+    return plan.get("cfg", {}).get("scaler") is not None and int(w.get("segment", 0)) >= 1
